@@ -246,11 +246,36 @@ Qed.
 
 Lemma cell_segment_sum W s c seg w :
   resolve (fc_width c) W = Some w -> nnone seg <> 0%nat ->
-  osum (cell_segment W s c seg) == w + fc_bp c - s * (qnat (fc_span c) - 1) /\ nnone (cell_segment W s c seg) = 0%nat.
+  osum (cell_segment W s c seg) == Qmax (w + fc_bp c - s * (qnat (fc_span c) - 1)) (osum seg) /\
+  nnone (cell_segment W s c seg) = 0%nat.
 Proof.
   intros Hw Hn. unfold cell_segment. rewrite Hw. destruct (nnone seg) as [|k] eqn:E; [contradiction|].
   split; [|apply nnone_fill]. rewrite osum_fill, E.
-  assert (Hk : 0 < qnat (S k)) by (apply qnat_pos; lia). field. lra.
+  assert (Hk : 0 < qnat (S k)) by (apply qnat_pos; lia).
+  set (x := w + fc_bp c - s * (qnat (fc_span c) - 1)).
+  assert (Hc : qnat (S k) * (Qmax 0 (x - osum seg) / qnat (S k)) == Qmax 0 (x - osum seg)) by (field; lra).
+  rewrite Hc. destruct (Qlt_le_dec (x - osum seg) 0) as [L|L].
+  - rewrite (Q.max_l 0 (x - osum seg)) by lra. rewrite (Q.max_r x (osum seg)) by lra. ring.
+  - rewrite (Q.max_r 0 (x - osum seg)) by lra. rewrite (Q.max_l x (osum seg)) by lra. ring.
+Qed.
+
+(* nothing negative is ever written *)
+Definition nonneg_o (l : list (option Q)) : Prop := Forall (fun o => match o with Some v => 0 <= v | None => True end) l.
+Lemma nonneg_fill v l : 0 <= v -> nonneg_o l -> nonneg_o (fill v l).
+Proof. intros Hv H. induction H as [|o l Ho _ IH]; simpl; constructor; [destruct o; assumption|exact IH]. Qed.
+Lemma cell_segment_nonneg W s c seg : nonneg_o seg -> nonneg_o (cell_segment W s c seg).
+Proof.
+  intro H. unfold cell_segment. destruct (resolve (fc_width c) W); [|exact H]. destruct (nnone seg) as [|k] eqn:E; [exact H|].
+  apply nonneg_fill; [|exact H]. apply div_nonneg; [apply Q.le_max_l|apply qnat_pos; lia].
+Qed.
+Lemma cells_loop_nonneg W s cells : forall cw cw1, cells_loop W s cells cw = Some cw1 -> nonneg_o cw -> nonneg_o cw1.
+Proof.
+  induction cells as [|c cells IH]; intros cw cw1 H N; simpl in H.
+  - now injection H as <-.
+  - destruct (length (firstn (fc_span c) cw) <? fc_span c)%nat; [discriminate|].
+    destruct (cells_loop W s cells (skipn (fc_span c) cw)) as [t|] eqn:E; [|discriminate]. injection H as <-.
+    rewrite <- (firstn_skipn (fc_span c) cw) in N. apply Forall_app in N. destruct N as [N1 N2].
+    apply Forall_app. split; [now apply cell_segment_nonneg|now apply (IH _ _ E)].
 Qed.
 
 (* ---------------------------------------------------------------- theorems *)
@@ -294,7 +319,9 @@ Theorem fixed_widths_honoured W s cols cells W' ws :
        (exists j, (spans pre <= j < spans pre + fc_span c)%nat /\
                   nth j (map (fun d => resolve d W) cols) None = None) ->
        qsum (firstn (fc_span c) (skipn (spans pre) ws)) + s * (qnat (fc_span c) - 1)
-       == w + fc_bp c + qnat (fc_span c) * bonus).
+       == Qmax (w + fc_bp c)
+               (osum (firstn (fc_span c) (skipn (spans pre) (fixed_init W cols cells))) + s * (qnat (fc_span c) - 1))
+          + qnat (fc_span c) * bonus).
 Proof.
   unfold fixed_layout. destruct (cells_loop W s cells (fixed_init W cols cells)) as [cw1|] eqn:E; [|discriminate].
   intros H. injection H as H. pose proof (finish_sum W s cw1) as F. rewrite H in F.
@@ -324,7 +351,52 @@ Proof.
     rewrite (Forall2_sum_bonus _ _ _ Fseg). rewrite <- Eseg, Sum1.
     assert (Lseg : length (firstn span (skipn off cw1)) = span).
     { rewrite firstn_length, skipn_length. rewrite <- (keeps_length _ _ K1). lia. }
-    rewrite Lseg. unfold span. ring.
+    rewrite Lseg. unfold span.
+    set (x := w + fc_bp c). set (o := osum (firstn (fc_span c) (skipn off init))). set (sp := s * (qnat (fc_span c) - 1)).
+    assert (Em : Qmax (x - sp) o + sp == Qmax x (o + sp)).
+    { destruct (Qlt_le_dec (x - sp) o) as [Lx|Lx].
+      - rewrite (Q.max_r (x - sp) o) by lra. rewrite (Q.max_r x (o + sp)) by lra. ring.
+      - rewrite (Q.max_l (x - sp) o) by lra. rewrite (Q.max_l x (o + sp)) by lra. ring. }
+    rewrite <- Em. ring.
+Qed.
+
+Lemma Forall_nonneg_add q l : 0 <= q -> Forall (fun w => 0 <= w) l -> Forall (fun w => 0 <= w) (map (fun w => w + q) l).
+Proof. intros Hq H. induction H as [|w l Hw _ IH]; simpl; constructor; [lra|exact IH]. Qed.
+
+(* no column is negative when no declared width is (F84 repaired: the share of a first-row cell is floored at 0) *)
+Theorem fixed_columns_non_negative W s cols cells W' ws :
+  0 <= s -> Forall (fun d => match resolve d W with Some v => 0 <= v | None => True end) cols ->
+  fixed_layout W s cols cells = Some (W', ws) -> Forall (fun w => 0 <= w) ws.
+Proof.
+  intros Hs Hc. unfold fixed_layout.
+  destruct (cells_loop W s cells (fixed_init W cols cells)) as [cw1|] eqn:E; [|discriminate].
+  intros H. injection H as H.
+  assert (N0 : nonneg_o (fixed_init W cols cells)).
+  { unfold fixed_init, nonneg_o. apply Forall_app. split.
+    - clear - Hc. induction Hc as [|d l Hd _ IH]; simpl; constructor; [destruct (resolve d W); assumption|exact IH].
+    - apply Forall_forall. intros o Ho. apply repeat_spec in Ho. now subst o. }
+  pose proof (cells_loop_nonneg _ _ _ _ _ E N0) as N1.
+  unfold fixed_finish in H.
+  set (n := length cw1) in *. set (allsp := s * (qnat n + 1)) in *. set (minw := osum cw1 + allsp) in *.
+  set (cw2' := if (0 <? nnone cw1)%nat && Qle_bool minw W then fill ((W - minw) / qnat (nnone cw1)) cw1 else fill 0 cw1) in *.
+  assert (N2 : nonneg_o cw2').
+  { unfold cw2'. destruct ((0 <? nnone cw1)%nat && Qle_bool minw W) eqn:Eb.
+    - apply andb_true_iff in Eb. destruct Eb as [Ek Em]. apply Nat.ltb_lt in Ek. apply Qle_bool_iff in Em.
+      apply nonneg_fill; [|exact N1]. apply div_nonneg; [lra|apply qnat_pos; exact Ek].
+    - apply nonneg_fill; [lra|exact N1]. }
+  assert (Nv : nnone cw2' = 0%nat) by (unfold cw2'; destruct (_ && _); apply nnone_fill).
+  assert (Nw : Forall (fun w => 0 <= w) (map oval cw2')).
+  { clear - N2 Nv. induction N2 as [|o l Ho _ IH]; simpl; constructor.
+    - destruct o; simpl; [exact Ho|lra].
+    - apply IH. rewrite nnone_cons in Nv. lia. }
+  set (wsb := map oval cw2') in *. set (extra := W - qsum wsb - allsp) in *.
+  destruct (Qle_bool extra 0) eqn:Ee.
+  - injection H as _ <-. exact Nw.
+  - assert (Hpos : 0 < extra) by (apply Qnot_le_lt; intro Hx; apply Qle_bool_iff in Hx; congruence).
+    destruct n as [|n'] eqn:En.
+    + injection H as _ <-. exact Nw.
+    + injection H as _ <-. assert (0 <= extra / qnat (S n')) by (apply div_nonneg; [lra|apply qnat_pos; lia]).
+      now apply Forall_nonneg_add.
 Qed.
 
 (* ---------------------------------------------------------------- examples *)
@@ -336,8 +408,9 @@ Example fixed_example_values :
   exists W' ws, fixed_layout 200 3 [DPx 50; DAuto; DPct 10] [mkfcell 2 (DPx 80) 6; mkfcell 2 DAuto 0] = Some (W', ws)
                 /\ W' == 200 /\ qlist_eqb ws [50; 33; 20; 82] = true.
 Proof. eexists. eexists. split; [reflexivity|]. split; vm_compute; reflexivity. Qed.
-(* a declared column width larger than the colspan cell that covers it: the other column becomes negative *)
-Example fixed_negative_column :
+(* a declared column width larger than the colspan cell that covers it: the other column gets 0 (it used to get a
+   negative width) and the table is widened *)
+Example fixed_narrow_colspan_cell :
   exists W' ws, fixed_layout 50 0 [DPx 100; DAuto] [mkfcell 2 (DPx 50) 0] = Some (W', ws)
-                /\ W' == 50 /\ qlist_eqb ws [100; -50] = true.
+                /\ W' == 100 /\ qlist_eqb ws [100; 0] = true.
 Proof. eexists. eexists. split; [reflexivity|]. split; vm_compute; reflexivity. Qed.
